@@ -12,6 +12,10 @@ Tie     : (1) translator: a changed sign / swapped angle / reordered return valu
               setter -> lengths / angles / volumes; the two utils functions directly) and are compared with an
               independent float64 oracle (Gram matrix entries, orientation, triple product), each named angle
               separately, under stated tolerances;
+          (1b) the translator also regenerates lengths_and_angles_to_tilt_factors, the degree-level wrappers and the per-frame glue of
+              Trajectory.unitcell_vectors (getter: which stored column feeds which argument, which returned vector becomes which row;
+              setter: rows -> arguments -> stored columns; the all-zero tolerance) and pins the text of the guards of
+              unitcell_volumes / _check_valid_unitcell / _have_unitcell that coq/Cell/Frames.v models;
           (3) correspondence B (histories): assignment / slice / join / stack / atom_slice histories on real
               trajectories vs the Gallina model (vm_compute), observing which of lengths / angles every register holds,
               _have_unitcell, unitcell_vectors is None, unitcell_volumes, _check_valid_unitcell.
@@ -48,7 +52,13 @@ RULE = ("A: cells with lengths in [0.5, 50] nm and angle triples satisfying 1 - 
         "periodic distance, assign lengths | angles | vectors | None, item assignment t.unitcell_lengths[f,i] = x / "
         "t.unitcell_angles[f,i] = x (these getters return the stored array, so this writes the stored cell; de-facto behaviour, "
         "not promised by the docs), scaling the array returned by unitcell_vectors (a temporary: no effect)}; after every op the "
-        "four getters must describe the lengths/angles stored at that moment")
+        "four getters must describe the lengths/angles stored at that moment. D (guards): every (lengths stored, angles stored, "
+        "negative length, negative angle) state x 1-3 frames x position of the negative entry (values -1e-6 .. -120, and +-0.0 which "
+        "must pass) through _check_valid_unitcell, save(.pdb), save(.dcd), unitcell_volumes, _have_unitcell against the Gallina tables "
+        "check_valid_code / volumes_code (vm_compute); 11 argument-shape combinations of box_vectors_to_lengths_and_angles; 4 cells "
+        "with all angles below 2 pi degrees (documented warning, conversion still done); 24 orthorhombic descriptions scaled by 1 .. 3e-15 "
+        "(identity, random signed axis permutation, zero-diagonal permutation) assigned to unitcell_vectors: kept, lengths exact. Every cell of A also goes through "
+        "lengths_and_angles_to_tilt_factors (float64 scalars of frame 0; float32 per-frame arrays in one call)")
 TRUSTED = ["harness/impl/cell_impl.py and traj_impl.py (public-API drivers)",
            "harness/props/C17.py: the ast translator of unitcell.py (decides which source expression becomes which Gallina "
            "term; np.cos(alpha) of the degree->radian converted parameter becomes the variable ca, etc.) and the float64 oracle"]
@@ -57,7 +67,13 @@ ASSUMPTIONS = ["theorems are over the reals with cos/sin of the angles as variab
                "correspondence: Gram entries |v_i.v_j - l_i l_j cos(theta_ij)| <= 3e-5 l_i l_j + 3e-6 (l_i + l_j) (the second term "
                "covers the 1e-6 snap), read-back lengths 2e-5 relative, read-back angles 2e-3 degree / sin(theta), volumes 2e-4 l_a l_b l_c",
                "Print Assumptions of the real-number theorems lists the standard-library axioms of Coq's reals "
-               "(ClassicalDedekindReals.sig_forall_dec, sig_not_dec, FunctionalExtensionality.functional_extensionality_dep)"]
+               "(ClassicalDedekindReals.sig_forall_dec, sig_not_dec, FunctionalExtensionality.functional_extensionality_dep; the "
+               "degree-level theorems, which use the library's acos, also Classical_Prop.classic)",
+               "second layer (Cell/Frames.v): cos, sin, acos are Coq's real functions and np.pi is PI; the list-level relations "
+               "set_vectors / check_valid / get_volumes are written by hand from the source, the translator accepts the guards of "
+               "trajectory.py only in exactly the form they were written from (any other form: translator degraded, the runs alone tie "
+               "the model); real comparisons are not computable, so of this layer only check_valid_code / volumes_code are evaluated "
+               "against the implementation (theorems check_valid_table_is_the_relation, volumes_are_triple_products_frame_by_frame)"]
 
 
 # ----------------------------------------------------------------------------- translator (T2: straight-line arithmetic)
@@ -106,6 +122,11 @@ class Arith:
                     return ("rad", x[1])
                 if isinstance(x, tuple) and x[0] == "acos" and _num(e.left.right, 180) and _is_np_pi(e.right):
                     return ("acosdeg", x[1])
+            if isinstance(e.op, ast.Pow):
+                if not _num(e.right, 2):
+                    raise Untranslatable("power other than 2")
+                x = self.scalar(self.ev(e.left))
+                return "(%s * %s)" % (x, x)
             a, b = self.ev(e.left), self.ev(e.right)
             if isinstance(e.op, ast.Mult) and self.isvec(a) and self.isvec(b):
                 return ("prod", a, b)                      # elementwise product, only legal inside np.sum
@@ -114,6 +135,11 @@ class Arith:
             if op is None:
                 raise Untranslatable("operator")
             return "(%s %s %s)" % (a, op, b)
+        if _np_call(e, "deg2rad") and len(e.args) == 1:
+            x = self.ev(e.args[0])
+            if isinstance(x, tuple) and x[0] == "deg":
+                return ("rad", x[1])
+            raise Untranslatable("deg2rad of something that is not an angle argument")
         if _np_call(e, "cos") or _np_call(e, "sin"):
             x = self.ev(e.args[0])
             if not (isinstance(x, tuple) and x[0] == "rad"):
@@ -262,6 +288,191 @@ def translate_from_vectors(fn):
     return lens, coss
 
 
+def translate_tilt(fn):
+    """lengths_and_angles_to_tilt_factors -> the six returned expressions (return order) over la lb lc ca cb cg"""
+    args = [a.arg for a in fn.args.args]
+    if len(args) != 6:
+        raise Untranslatable("signature of lengths_and_angles_to_tilt_factors")
+    env = {args[0]: "la", args[1]: "lb", args[2]: "lc", args[3]: ("deg", "alpha"), args[4]: ("deg", "beta"), args[5]: ("deg", "gamma")}
+    ar = Arith(env, {"alpha": "ca", "beta": "cb", "gamma": "cg"}, {})
+    ret = None
+    for st in fn.body:
+        if isinstance(st, ast.Expr) and isinstance(st.value, ast.Constant):
+            continue
+        if isinstance(st, ast.Assign) and len(st.targets) == 1 and isinstance(st.targets[0], ast.Name):
+            ar.env[st.targets[0].id] = ar.ev(st.value)
+            continue
+        if isinstance(st, ast.Return):
+            v = st.value
+            if not (_np_call(v, "array") and len(v.args) == 1 and isinstance(v.args[0], ast.List) and len(v.args[0].elts) == 6):
+                raise Untranslatable("return of tilt factors")
+            ret = [Arith.scalar(ar.ev(x)) for x in v.args[0].elts]
+            continue
+        raise Untranslatable("statement " + ast.dump(st)[:80])
+    if ret is None:
+        raise Untranslatable("no return")
+    return ret
+
+
+def _norm(node):
+    return ast.unparse(node).replace(" ", "").replace("\n", "")
+
+
+def _props(cls, name):
+    """(getter, setter) FunctionDefs of a property of the class"""
+    g = s_ = None
+    for n in cls.body:
+        if isinstance(n, ast.FunctionDef) and n.name == name:
+            decs = [_norm(d) for d in n.decorator_list]
+            if decs == ["property"]:
+                g = n
+            elif decs == ["%s.setter" % name]:
+                s_ = n
+    return g, s_
+
+
+def _body(fn):
+    return [st for st in fn.body if not (isinstance(st, ast.Expr) and isinstance(st.value, ast.Constant))]
+
+
+def translate_glue(src_text):
+    """the per-frame plumbing of Trajectory.unitcell_vectors (getter, setter), unitcell_volumes and
+    _check_valid_unitcell.  -> dict(getter_args=[(field, column)] * 6, getter_rows=[index of returned vector] * 3,
+    setter_rows=[row index] * 3 (argument order), setter_unpack=[names] * 6, setter_lengths=[names] * 3,
+    setter_angles=[names] * 3, zero_tol=str).  The guards are accepted in exactly the form the model (Cell/Frames.v)
+    was written from; any other form is Untranslatable."""
+    tree = ast.parse(src_text)
+    cls = [n for n in tree.body if isinstance(n, ast.ClassDef) and n.name == "Trajectory"][0]
+    g, st_ = _props(cls, "unitcell_vectors")
+    if g is None or st_ is None:
+        raise Untranslatable("unitcell_vectors property")
+    out = {}
+    # ---- getter
+    b = _body(g)
+    if len(b) != 3 or _norm(b[0]) != "ifself._unitcell_lengthsisNoneorself._unitcell_anglesisNone:returnNone":
+        raise Untranslatable("unitcell_vectors getter: guard")
+    call = b[1]
+    if not (isinstance(call, ast.Assign) and isinstance(call.targets[0], ast.Tuple) and len(call.targets[0].elts) == 3
+            and isinstance(call.value, ast.Call) and _norm(call.value.func) == "lengths_and_angles_to_box_vectors"
+            and len(call.value.args) == 6 and not call.value.keywords):
+        raise Untranslatable("unitcell_vectors getter: conversion call")
+    names = [x.id for x in call.targets[0].elts]
+    args = []
+    for a in call.value.args:
+        t = _norm(a)
+        ok = False
+        for field, key in (("_unitcell_lengths", "l"), ("_unitcell_angles", "a")):
+            for k in range(3):
+                if t == "self.%s[:,%d]" % (field, k):
+                    args.append((key, k))
+                    ok = True
+        if not ok:
+            raise Untranslatable("unitcell_vectors getter: argument " + t)
+    out["getter_args"] = args
+    r = b[2]
+    if not (isinstance(r, ast.Return) and _np_call(r.value, "swapaxes") and len(r.value.args) == 3
+            and _num(r.value.args[1], 1) and _num(r.value.args[2], 2) and _np_call(r.value.args[0], "dstack")
+            and len(r.value.args[0].args) == 1 and isinstance(r.value.args[0].args[0], ast.Tuple)):
+        raise Untranslatable("unitcell_vectors getter: return")
+    rows = [x.id for x in r.value.args[0].args[0].elts]
+    if len(rows) != 3 or any(x not in names for x in rows):
+        raise Untranslatable("unitcell_vectors getter: stacked names")
+    out["getter_names"], out["getter_rows"] = names, rows
+    # ---- setter
+    b = _body(st_)
+    arg = st_.args.args[1].arg
+    if len(b) != 8:
+        raise Untranslatable("unitcell_vectors setter: %d statements" % len(b))
+    g0 = _norm(b[0])
+    import re as _re
+    m = _re.fullmatch(r"if%sisNoneornp\.all\(np\.abs\(%s\)<([0-9.e+-]+)\):self\._unitcell_lengths=Noneself\._unitcell_angles=Nonereturn" % (arg, arg), g0)
+    if not m:
+        raise Untranslatable("unitcell_vectors setter: all-zero guard " + g0[:80])
+    tol = float(m.group(1))
+    from fractions import Fraction
+    inv = Fraction(1) / Fraction(m.group(1))
+    if inv.denominator != 1 or not (0 < tol < 1):
+        raise Untranslatable("all-zero tolerance %r is not 1/integer" % m.group(1))
+    out["zero_tol"] = "/ %d" % inv.numerator
+    if _norm(b[1]) not in ("ifnotlen(%s)==len(self):raiseTypeError('unitcell_vectorsmustbethesamelengthasthetrajectory.youprovided%%s'%%str(%s))" % (arg, arg),):
+        if not _norm(b[1]).startswith("ifnotlen(%s)==len(self):raiseTypeError(" % arg):
+            raise Untranslatable("unitcell_vectors setter: length guard")
+    rowvar = {}
+    for st in b[2:5]:
+        t = _norm(st)
+        m = _re.fullmatch(r"([A-Za-z_0-9]+)=%s\[:,([012]),:\]" % arg, t)
+        if not m:
+            raise Untranslatable("unitcell_vectors setter: row " + t)
+        rowvar[m.group(1)] = int(m.group(2))
+    call = b[5]
+    if not (isinstance(call, ast.Assign) and isinstance(call.targets[0], ast.Tuple) and len(call.targets[0].elts) == 6
+            and isinstance(call.value, ast.Call) and _norm(call.value.func) == "box_vectors_to_lengths_and_angles"
+            and len(call.value.args) == 3 and all(isinstance(x, ast.Name) and x.id in rowvar for x in call.value.args)):
+        raise Untranslatable("unitcell_vectors setter: conversion call")
+    out["setter_rowvars"] = [(k, v) for k, v in rowvar.items()]
+    out["setter_call"] = [x.id for x in call.value.args]
+    out["setter_unpack"] = [x.id for x in call.targets[0].elts]
+    for st, key, field in ((b[6], "setter_lengths", "_unitcell_lengths"), (b[7], "setter_angles", "_unitcell_angles")):
+        m = _re.fullmatch(r"self\.%s=np\.vstack\(\(([A-Za-z_0-9]+),([A-Za-z_0-9]+),([A-Za-z_0-9]+)\)\)\.T" % field, _norm(st))
+        if not m or any(x not in out["setter_unpack"] for x in m.groups()):
+            raise Untranslatable("unitcell_vectors setter: " + _norm(st)[:60])
+        out[key] = list(m.groups())
+    if len(set(out["setter_unpack"])) != 6:
+        raise Untranslatable("unitcell_vectors setter: unpack names")
+    # ---- unitcell_volumes and _check_valid_unitcell: accepted only in the form Cell/Frames.v models
+    gv, _s = _props(cls, "unitcell_volumes")
+    if gv is None or [_norm(x) for x in _body(gv)] != [
+            "ifself.unitcell_lengthsisnotNone:returnnp.array(list(map(np.linalg.det,self.unitcell_vectors)),dtype=np.float64)else:returnNone"]:
+        raise Untranslatable("unitcell_volumes")
+    cv = [n for n in cls.body if isinstance(n, ast.FunctionDef) and n.name == "_check_valid_unitcell"]
+    want = ["ifself.unitcell_lengthsisnotNoneandself.unitcell_anglesisNone:raiseAttributeError('unitcelllengthdataexists,butnoangles')",
+            "ifself.unitcell_lengthsisNoneandself.unitcell_anglesisnotNone:raiseAttributeError('unitcellanglesdataexists,butnolengths')",
+            "ifself.unitcell_lengthsisnotNoneandnp.any(self.unitcell_lengths<0):raiseValueError('unitcelllength<0')",
+            "ifself.unitcell_anglesisnotNoneandnp.any(self.unitcell_angles<0):raiseValueError('unitcellangle<0')"]
+    if len(cv) != 1 or [_norm(x) for x in _body(cv[0])] != want:
+        raise Untranslatable("_check_valid_unitcell")
+    hv = _props(cls, "_have_unitcell")[0]
+    if hv is None or [_norm(x) for x in _body(hv)] != ["returnself._unitcell_lengthsisnotNoneandself._unitcell_anglesisnotNone"]:
+        raise Untranslatable("_have_unitcell")
+    return out
+
+
+def glue_text(g):
+    L = ["", "(* ---- the glue of mdtraj/core/trajectory.py, one frame: Trajectory.unitcell_vectors getter (which stored column goes to which",
+         "   argument; which returned vector becomes which row) and setter (which row goes to which argument; which returned number",
+         "   goes to which stored column), before the snap *)",
+         "Definition gen_getter_frame (l a : R * R * R) : (R * R * R) * (R * R * R) * (R * R * R) :=",
+         "  let '(l0, l1, l2) := l in let '(a0, a1, a2) := a in",
+         "  let '(%s) := gen_to_vectors_deg %s in" % (", ".join(g["getter_names"]), " ".join("%s%d" % fk for fk in g["getter_args"])),
+         "  (%s)." % ", ".join(g["getter_rows"]), "",
+         "Definition gen_setter_frame (m : (R * R * R) * (R * R * R) * (R * R * R)) : (R * R * R) * (R * R * R) :=",
+         "  let '(r0, r1, r2) := m in",
+         "  " + " ".join("let %s := r%d in" % kv for kv in g["setter_rowvars"]),
+         "  let '((%s), (%s)) := gen_from_vectors_deg %s in" % (", ".join(g["setter_unpack"][:3]), ", ".join(g["setter_unpack"][3:]), " ".join(g["setter_call"])),
+         "  ((%s), (%s))." % (", ".join(g["setter_lengths"]), ", ".join(g["setter_angles"])), "",
+         "(* `vectors is None or np.all(np.abs(vectors) < 1e-15)` *)",
+         "Definition gen_zero_tol : R := %s." % g["zero_tol"]]
+    return "\n".join(L) + "\n"
+
+
+def deg_tilt_text(tilt):
+    L = ["", "(* ---- the same two functions with the angles themselves (degrees) as arguments: the source converts with",
+         "   `x * np.pi / 180` before np.cos / np.sin and with `np.arccos(.) * 180.0 / np.pi` on the way back (the translator accepts",
+         "   exactly these two forms) *)",
+         "Definition gen_deg2rad (x : R) : R := x * PI / 180.",
+         "Definition gen_rad2deg (x : R) : R := x * 180 / PI.", "",
+         "Definition gen_to_vectors_deg (la lb lc alpha beta gamma : R) : (R * R * R) * (R * R * R) * (R * R * R) :=",
+         "  gen_to_vectors la lb lc (cos (gen_deg2rad alpha)) (cos (gen_deg2rad beta)) (cos (gen_deg2rad gamma)) (sin (gen_deg2rad gamma)).", "",
+         "Definition gen_from_vectors_deg (a b c : R * R * R) : R * R * R * (R * R * R) :=",
+         "  let '(l, (x, y, z)) := gen_from_vectors a b c in",
+         "  (l, (gen_rad2deg (acos x), gen_rad2deg (acos y), gen_rad2deg (acos z))).", "",
+         "(* ---- lengths_and_angles_to_tilt_factors: the six returned numbers in return order (lx, ly, lz, xy, xz, yz);",
+         "   ca cb cg: np.cos(np.deg2rad(.)) of the 4th, 5th, 6th argument *)",
+         "Definition gen_tilt_factors (la lb lc ca cb cg : R) : R * R * R * R * R * R :=",
+         "  (%s)." % ",\n   ".join(tilt)]
+    return "\n".join(L) + "\n"
+
+
 def gen_text(vecs, lens, coss):
     L = ["(* GENERATED on every run by harness/props/C17.py:translate from mdtraj/utils/unitcell.py -- do not edit.",
          "   Straight-line arithmetic of lengths_and_angles_to_box_vectors (before the 1e-6 snap) and of",
@@ -360,10 +571,12 @@ def translate(ctx):
     try:
         vecs = translate_to_vectors(func_body(tree, "lengths_and_angles_to_box_vectors"))
         lens, coss = translate_from_vectors(func_body(tree, "box_vectors_to_lengths_and_angles"))
+        tilt = translate_tilt(func_body(tree, "lengths_and_angles_to_tilt_factors"))
+        glue = translate_glue(txt)
     except Untranslatable:
         # keep the last generated definitions (the model is defined from them); the tie is the correspondence
         raise
-    ctx.write_gen("Gen/CellFormulas.v", gen_text(vecs, lens, coss))
+    ctx.write_gen("Gen/CellFormulas.v", gen_text(vecs, lens, coss) + deg_tilt_text(tilt) + glue_text(glue))
     ctx.notes["translator"] = "ok"
 
 
@@ -667,6 +880,38 @@ def check_cell(c, r):
             wa = [math.degrees(math.acos(Gw[i, j] / (wl[i] * wl[j]))) for _nm, i, j in NAMES]
             if max(abs(x - y) for x, y in zip(ub[:3], wl)) > 1e-9 * max(L) or max(abs(x - y) for x, y in zip(ub[3:], wa)) > 1e-6:
                 bad.append(("utils.box_vectors_to_lengths_and_angles (float64): a named output differs", "%s vs %s" % (ub, wl + wa)))
+    # tilt factors (lx, ly, lz, xy, xz, yz) = (a_x, b_y, c_z, b_x, c_x, c_y): theorem tilt_factors_are_vector_components
+    ts = r.get("tilt_scalar")
+    if isinstance(ts, dict) or ts is None or r.get("tilt_frames") is None:
+        bad.append(("utils.lengths_and_angles_to_tilt_factors raised", str(ts)))
+    else:
+        L, A = c["lengths"][0], c["angles"][0]
+        Vo = oracle_vectors(L, A)
+        want = [Vo[0][0], Vo[1][1], Vo[2][2], Vo[1][0], Vo[2][0], Vo[2][1]]
+        names = ("lx", "ly", "lz", "xy", "xz", "yz")
+        for nm, x, w in zip(names, ts, want):
+            if not abs(x - w) <= 1e-9 * max(L):
+                bad.append(("tilt factor %s (float64) is not the matching box-vector component" % nm, "%r vs %r" % (x, w)))
+        uv = r.get("utils_vectors")
+        if not isinstance(uv, dict) and uv is not None:
+            U = np.array(uv)
+            own = [U[0][0], U[1][1], U[2][2], U[1][0], U[2][0], U[2][1]]
+            for nm, x, w in zip(names, ts, own):
+                if not abs(x - w) <= 1e-9 * max(L) + 1.5e-6:
+                    bad.append(("tilt factor %s differs from the component of lengths_and_angles_to_box_vectors" % nm, "%r vs %r" % (x, w)))
+        tf = r["tilt_frames"]
+        if len(tf) != len(c["lengths"]):
+            bad.append(("tilt factors of per-frame arrays: not one row per frame", "%d rows" % len(tf)))
+        else:
+            for f, (Lf, Af) in enumerate(zip(c["lengths"], c["angles"])):
+                Vf = oracle_vectors(Lf, Af)
+                wf = [Vf[0][0], Vf[1][1], Vf[2][2], Vf[1][0], Vf[2][0], Vf[2][1]]
+                for nm, x, w in zip(names, tf[f], wf):
+                    # float32 evaluation; lz suffers the cancellation of the near-degenerate cells like cz of the vectors
+                    tol = (3e-5 * max(Lf) + 1e-6) if nm != "lz" else (3e-5 * max(Lf) * max(Lf) / max(Vf[2][2], 1e-3) + 1e-5)
+                    if not abs(x - w) <= tol:
+                        bad.append(("tilt factor %s (float32 arrays) is not the matching box-vector component" % nm,
+                                    "frame %d: %r vs %r" % (f, x, w)))
     if not r.get("zero_vectors_no_cell"):
         bad.append(("all-zero unitcell_vectors did not remove the cell", ""))
     if not r.get("none_vectors_no_cell"):
@@ -969,6 +1214,130 @@ def fixed_getter_histories():
     return out
 
 
+# ----------------------------------------------------------------------------- correspondence D: validity guards
+CODES = {"ok": 0, "AttributeError": 1, "ValueError": 2, "TypeError": 3}
+
+
+def build_guards(ctx):
+    """check_valid: every (lengths stored, angles stored, a negative length, a negative angle) combination, 1-3 frames, the
+    negative entry in any frame / column (incl. -0.0 and tiny negatives), against Frames.check_valid_code / volumes_code;
+    from_vectors: argument shapes of box_vectors_to_lengths_and_angles; radians: all angles below 2 pi degrees."""
+    rng = ctx.rng
+    gs = []
+    reps = 2 if ctx.tier == "quick" else 12
+    for hl in (False, True):
+        for ha in (False, True):
+            for nl in ((False, True) if hl else (False,)):
+                for na in ((False, True) if ha else (False,)):
+                    for _ in range(reps):
+                        nf = rng.choice([1, 2, 3])
+                        L = [[f32(rng.uniform(2.0, 9.0)) for _ in range(3)] for _ in range(nf)] if hl else None
+                        A = [gen_angles(rng, "random") for _ in range(nf)] if ha else None
+                        if nl:
+                            L[rng.randrange(nf)][rng.randrange(3)] = f32(-rng.choice([1e-6, 0.5, 3.0, 40.0]))
+                        if na:
+                            A[rng.randrange(nf)][rng.randrange(3)] = f32(-rng.choice([1e-6, 0.5, 90.0, 120.0]))
+                        gs.append({"kind": "check_valid", "frames": nf, "lengths": L, "angles": A, "state": [hl, ha, nl, na]})
+    # zero entries are NOT negative (a zero length / angle passes the guard; -0.0 compares equal to 0)
+    for z in (0.0, -0.0):
+        gs.append({"kind": "check_valid", "frames": 1, "lengths": [[3.0, z, 5.0]], "angles": [[90.0, 90.0, 90.0]], "state": [True, True, False, False]})
+        gs.append({"kind": "check_valid", "frames": 1, "lengths": [[3.0, 4.0, 5.0]], "angles": [[90.0, z, 90.0]], "state": [True, True, False, False]})
+    for shapes, want in (([[3], [3], [3]], "ok"), ([[4, 3], [4, 3], [4, 3]], "ok"), ([[1, 3], [1, 3], [1, 3]], "ok"),
+                         ([[3], [3], [2, 3]], "TypeError"), ([[2, 3], [3], [3]], "TypeError"), ([[2, 3], [2, 3], [3, 3]], "TypeError"),
+                         ([[4], [4], [4]], "TypeError"), ([[2, 2], [2, 2], [2, 2]], "TypeError"), ([[3, 4], [3, 4], [3, 4]], "TypeError"),
+                         ([[2, 2, 3], [2, 2, 3], [2, 2, 3]], "ValueError"), ([[1, 1, 1, 3]] * 3, "ValueError")):
+        gs.append({"kind": "from_vectors", "shapes": shapes, "want": want})
+    for A in ([3.0, 4.0, 5.0], [5.5, 4.0, 3.0], [6.0, 6.0, 6.0], [1.0, 1.5, 2.0]):
+        gs.append({"kind": "radians", "lengths": [f32(rng.uniform(2.0, 9.0)) for _ in range(3)], "angles": A})
+    # descriptions of every scale down to the all-zero tolerance of the unitcell_vectors setter (float64 arrays, so that nothing
+    # is lost before the setter sees them): kept, with the lengths of the description (theorem
+    # only_none_or_all_zero_vectors_remove_the_cell: a vector of norm >= sqrt 3 * 1e-15 is never mistaken for "no cell")
+    P = signed_permutations()
+    for scale in (1.0, 1e-3, 1e-5, 1e-7, 1e-9, 1e-11, 1e-13, 3e-15):
+        for M in (P[0], P[rng.randrange(len(P))], [m for m in P if abs(m[0, 0]) + abs(m[1, 1]) + abs(m[2, 2]) == 0][rng.randrange(16)]):
+            base = [rng.uniform(2.0, 9.0) for _ in range(3)]
+            V = (np.asarray(M) @ np.diag(base)).T * scale          # rows: M applied to the orthorhombic edges
+            gs.append({"kind": "tiny_description", "vectors": [V.tolist()], "scale": scale,
+                       "want_lengths": [[float(np.linalg.norm(V[i])) for i in range(3)]]})
+    for i, g in enumerate(gs):
+        g["id"] = i
+    return gs
+
+
+def run_guards(ctx, gs, stage="correspond"):
+    res = ctx.run_impl("cell_impl.py", {"cells": [], "guards": gs})["guards"]
+    cv = [(g, r) for g, r in zip(gs, res) if g["kind"] == "check_valid"]
+    # the model's table, evaluated in Coq, against the error class observed on the implementation
+    cases, vcases = [], []
+    for g, r in cv:
+        st = "(%s, %s, %s, %s)" % tuple("true" if x else "false" for x in g["state"])
+        cases.append((st, "%d%%nat" % CODES.get(r["check"], 9)))
+        v = r["volumes"]
+        vcases.append(("(%s, %s)" % tuple("true" if x else "false" for x in g["state"][:2]),
+                       "%d%%nat" % (0 if v == "none" else 4 if isinstance(v, list) else CODES.get(v, 9))))
+    badc, errs = ctx.coq_mismatches(["MD.Cell.Frames"], ("bool * bool * bool * bool", "nat"), "Nat.eqb",
+                                    "(fun p => let '(hl, ha, nl, na) := p in check_valid_code hl ha nl na)", cases)
+    badv, errs2 = ctx.coq_mismatches(["MD.Cell.Frames"], ("bool * bool", "nat"), "Nat.eqb",
+                                     "(fun p => volumes_code (fst p) (snd p))", vcases)
+    if errs or errs2:
+        ctx.break_("correspondence:coqc-evaluation(guards)", "\n".join(errs + errs2)[-1500:])
+    for i, (g, r) in enumerate(cv):
+        case = {"guard": {k: g[k] for k in g if k != "id"}}
+        ctx.count(case, nontrivial=any(g["state"][2:]) or g["state"][0] != g["state"][1], bucket="guard/check_valid")
+        if i in badc:
+            ctx.fail("_check_valid_unitcell does not follow the guard table (Frames.check_valid_code)", case, observed=r["check"],
+                     expected="error class of check_valid_code %s" % g["state"], tags={"kind": "guard-check-valid", "explained_by": None}, stage=stage)
+        if i in badv:
+            ctx.fail("unitcell_volumes does not follow the getter table (Frames.volumes_code)", case, observed=r["volumes"],
+                     expected="volumes_code %s" % g["state"][:2], tags={"kind": "guard-volumes", "explained_by": None}, stage=stage)
+        if isinstance(r["volumes"], list) and r["volumes"][1] != g["frames"]:
+            ctx.fail("unitcell_volumes has not one entry per frame", case, observed=r["volumes"], expected=g["frames"],
+                     tags={"kind": "guard-volumes", "explained_by": None}, stage=stage)
+        # the writers that consult the guard (save_pdb, save_dcd call it first) refuse exactly when the guard does
+        for ext in (".pdb", ".dcd"):
+            sv = r.get("save" + ext)
+            if (r["check"] != "ok") != (sv != "ok") or (sv != "ok" and sv != r["check"]):
+                ctx.fail("save%s and _check_valid_unitcell disagree" % ext, case, observed={"check": r["check"], "save": sv},
+                         expected="the writer raises what the guard raises, and only then",
+                         tags={"kind": "guard-save", "format": ext, "explained_by": None}, stage=stage)
+        if r["have"] != (g["state"][0] and g["state"][1]):
+            ctx.fail("_have_unitcell is not (lengths stored and angles stored)", case, observed=r["have"], expected=g["state"][:2],
+                     tags={"kind": "guard-have", "explained_by": None}, stage=stage)
+    for g, r in zip(gs, res):
+        case = {"guard": {k: g[k] for k in g if k != "id"}}
+        if g["kind"] == "from_vectors":
+            ctx.count(case, nontrivial=g["want"] != "ok", bucket="guard/from_vectors")
+            if r["result"] != g["want"]:
+                ctx.fail("box_vectors_to_lengths_and_angles: argument-shape guard", case, observed=r["result"], expected=g["want"],
+                         tags={"kind": "guard-shape", "explained_by": None}, stage=stage)
+            elif g["want"] == "ok" and r.get("shape") != g["shapes"][0][:-1]:
+                ctx.fail("box_vectors_to_lengths_and_angles: result has not one entry per frame", case, observed=r.get("shape"),
+                         expected=g["shapes"][0][:-1], tags={"kind": "guard-shape", "explained_by": None}, stage=stage)
+        elif g["kind"] == "tiny_description":
+            ctx.count(case, nontrivial=g["scale"] < 1.0, bucket="guard/tiny_description")
+            if r["result"] != "ok" or r.get("lengths") is None or r.get("angles") is None:
+                ctx.fail("a non-zero description assigned to unitcell_vectors was taken for 'no cell'", case, observed=r,
+                         expected="kept: some entry is at least 1e-15", tags={"kind": "guard-zero-tol", "explained_by": None}, stage=stage)
+            else:
+                got, want = np.array(r["lengths"]), np.array(g["want_lengths"])
+                if got.shape != want.shape or not np.all(np.abs(got - want) <= 1e-9 * want):
+                    ctx.fail("lengths read back from a scaled description", case, observed=r["lengths"], expected=g["want_lengths"],
+                             tags={"kind": "guard-zero-tol", "explained_by": None}, stage=stage)
+                elif not np.all(np.abs(np.array(r["angles"]) - 90.0) <= 1e-6):
+                    ctx.fail("angles read back from a scaled orthorhombic description", case, observed=r["angles"], expected=90.0,
+                             tags={"kind": "guard-zero-tol", "explained_by": None}, stage=stage)
+        elif g["kind"] == "radians":
+            ctx.count(case, nontrivial=True, bucket="guard/radians")
+            if r["result"] != "ok" or not r.get("warned"):
+                ctx.fail("angles below 2 pi degrees: a warning is documented, the conversion must still be done", case, observed=r,
+                         expected="vectors and a warning", tags={"kind": "guard-radians", "explained_by": None}, stage=stage)
+            else:
+                Vo = oracle_vectors(g["lengths"], g["angles"])
+                if np.abs(np.array(r["vectors"]) - Vo).max() > 1e-7 * max(g["lengths"]) + 1.5e-6:
+                    ctx.fail("small-angle cell: utils.lengths_and_angles_to_box_vectors (float64) differs from the construction", case,
+                             observed=r["vectors"], expected=Vo.tolist(), tags={"kind": "guard-radians", "explained_by": None}, stage=stage)
+
+
 def correspond(ctx):
     hs = fixed_getter_histories() + [getter_history(ctx.rng) for _ in range(150 if ctx.tier == "quick" else 3000)]
     ctx.log("getter histories:", len(hs))
@@ -980,6 +1349,9 @@ def correspond(ctx):
     ctx.log("histories:", len(hist))
     run_histories(ctx, hist)
     saveload_check(ctx)
+    gs = build_guards(ctx)
+    ctx.log("guards:", len(gs))
+    run_guards(ctx, gs)
 
 
 def format_table():
@@ -1078,5 +1450,7 @@ def replay(ctx, rec):
         run_cells(ctx, [dict(c["cell"], kind="replay")])
     elif "getter_history" in c:
         run_getter_histories(ctx, [c["getter_history"]])
+    elif "guard" in c:
+        run_guards(ctx, [dict(c["guard"], id=0)])
     else:
         run_histories(ctx, [dict(c, stream="replay")])
